@@ -83,7 +83,8 @@ pub fn replay(ctx: &mut Ctx, tag: &str, args: &[&str]) {
         "c18" => c18::case(ctx, args[0]),
         "c12t" => c12::case_tokens(ctx, args[0], args[1]),
         "c12" => c12::case_limit(ctx, args[0], args[1], args[2]),
-        "c12e" => c12::case_emfile(ctx, args[0], args[1], args.get(2).copied().unwrap_or("live")),
+        "c12e" => c12::case_emfile(ctx, args[0], args[1], args.get(2).copied().unwrap_or("live"), args.get(3).copied().unwrap_or("250")),
+        "c12b" => c12::case_tokens_big(ctx, args[0], args[1]),
         "c13e" => c12::case_shutdown_emfile(ctx, args[0], args[1]),
         "c13" => c12::case_shutdown(ctx, args[0], args[1], args[2]),
         "c08s" => c12::case_stall(ctx, args[0]),
